@@ -151,9 +151,9 @@ def small_opt_program(r):
     if x < 0.45:
         objs = [r.choice(['OMakespan', 'OFlowtime', 'OPriorities', 'OGreatestStart', 'OStartLatest', 'OStartEarliest'])]
     elif x < 0.7:
-        objs = r.sample(['OMakespan', 'OFlowtime', 'OPriorities', 'OGreatestStart'], 2)   # same direction (minimise)
+        objs = r.sample(['OMakespan', 'OFlowtime', 'OPriorities', 'OGreatestStart', 'ORawW'], 2)   # same direction (minimise)
     iid = 50
-    if not objs and r.random() < 0.6:
+    if not objs and r.random() < 0.6 and not prog[1][3]:      # task 1 mandatory: the declared bounds are true bounds
         # a user indicator with declared bounds; with start = 0 (the usual first model) it sits on its upper bound
         hz = terms.zval(prog[0][1][1])
         k1 = prog[1][2]
@@ -162,7 +162,12 @@ def small_opt_program(r):
                      terms.Some(terms.P(terms.Z(0), terms.Z(hz - d1)))))
         prog.append(('ONewObjective', (r.choice(['OMinIndicator', 'OMinIndicator', 'OMaxIndicator']), terms.N(40), terms.Z(1)), terms.N(41)))
     for o in objs:
-        prog.append(('ONewObjective', (o,) if o in ('OMakespan', 'OPriorities', 'OStartEarliest') else (o, None), terms.N(iid)))
+        if o == 'ORawW':
+            # the generic Objective on an expression, with a weight
+            ob = ('ORaw', terms.N(iid), ('TV', ('VEnd', terms.N(1))), terms.Z(r.choice([2, 3])), False)
+        else:
+            ob = (o,) if o in ('OMakespan', 'OPriorities', 'OStartEarliest') else (o, None)
+        prog.append(('ONewObjective', ob, terms.N(iid)))
         iid += 1
     return prog
 
